@@ -930,9 +930,13 @@ pub fn check_conc(
           counters.inc("overflow_in_position_arithmetic_not_judged");
           continue;
         }
-        if !aborted_run {
+        // C19 (no answer comparison; under Miri not even baselines): a plain
+        // panic cannot be told from an out-of-domain input and is not its
+        // subject — only a violated precondition counts
+        let is_pre = m.contains("rspack_sources_verif: precondition");
+        if !aborted_run && (cfg.compare_answers || is_pre) {
           violations.push(Violation {
-            kind: if m.contains("rspack_sources_verif: precondition") {
+            kind: if is_pre {
               "precondition".into()
             } else {
               "panic".into()
